@@ -91,7 +91,8 @@ PROPS = {
     },
     "C16": {
         "rules": [r_fmt.run_c16, r_cost.run_c16, kind_scope("trainer::model", "raw_connector"),
-                  r_scorer.reserved0, r_scorer.padval, r_scorer.rowrange, r_scorer.pruneset],
+                  r_scorer.reserved0, r_scorer.padval, r_scorer.rowrange, r_scorer.pruneset,
+                  r_misc.bigram_details_shape],
         "explanation": "FMT: bigram.left/right lines are `id TAB csv` with 1-based ids (what "
                        "parse_features and the id == line+1 check require); bigram.cost lines are "
                        "`left-word feature / right-word feature TAB cost`, matching the order in "
@@ -105,7 +106,7 @@ PROPS = {
     },
     "C18": {
         "rules": [kind_scope("trainer", "mecab"), r_fmt.bigram_files, r_codec.run_c18,
-                  r_misc.template_cover, r_misc.regex_trainer, r_misc.csvsplit],
+                  r_misc.template_cover, r_misc.regex_trainer, r_misc.csvsplit, r_misc.bigram_details_shape],
         "explanation": "KIND over the trainer: unigram/left/right templates, id tables and "
                        "next-id counters are never mixed (same-family rule on "
                        "extract_feature_ids), extract_left/right results reach the matching "
@@ -456,7 +457,8 @@ _ADDED = {
             "CACHE: every Model method that mutates the model data resets the cached merged "
             "model (a stale cache makes the user rows index past the merged tables).",
             "who-may-write / must-kill rule on the cache field"),
-    "C16": ("RESERVED0 / ROWRANGE: the BOS/EOS row of the raw connector is zeroed over its full "
+    "C16": ("BIGRAMROW: cell separators are written exactly for cell indices > 0, and the position "
+            "in bigram_weight_indices() is the left feature id. RESERVED0 / ROWRANGE: the BOS/EOS row of the raw connector is zeroed over its full "
             "width and rows are addressed by id * feat_template_size (the `including id 0` "
             "clause for more than 8 templates).", "symbolic index-range shape rule"),
     "C19": ("CORPUS: sentence bookkeeping of Corpus::from_reader (empty sentences dropped on the "
